@@ -50,7 +50,9 @@ static void many_live(struct res *r) {
         for (int k = 0; k < LIVE_MAX; k++) {
             int i = order == 0 ? k : order == 1 ? LIVE_MAX - 1 - k : order == 2 ? (k < LIVE_MAX / 2 ? 2 * k : 2 * (k - LIVE_MAX / 2) + 1) : (k & 1 ? LIVE_MAX / 2 + (k + 1) / 2 : LIVE_MAX / 2 - k / 2);
             if (i < 0 || i >= LIVE_MAX || !alive[i]) { for (i = 0; i < LIVE_MAX && !alive[i]; i++) { } }
-            polyseed_free(S[i]); alive[i] = 0; left--; r->calls++; r->cases++;
+            { void *blk = S[i]; polyseed_free(S[i]); alive[i] = 0; left--; r->calls++; r->cases++;
+              for (int q = 0; q < E.nlive; q++) if (E.live[q].p == blk) { const uint8_t *bb = blk; int dirty = 0; for (size_t z = 0; z < E.live[q].n; z++) dirty |= bb[z];
+                  if (dirty) { char rep[80]; snprintf(rep, sizeof rep, "release %d", k); res_viol(r, "c16:long:free-left-data", rep, "with %d seeds alive, polyseed_free of seed %d neither wiped nor released its block: the secret is still in memory", left + 1, i); ledger_drop_all(); return; } } }
             if (ledger_is(left, (uint64_t)k, r, "release")) { ledger_drop_all(); return; }
             if (k % 32 == 31) for (int j = 0; j < LIVE_MAX; j++) if (alive[j] && !same(S[j], &M[j])) { char rep[80]; snprintf(rep, sizeof rep, "release %d", k); res_viol(r, "c13:long:release:other-seed-changed", rep, "after %d releases, live seed %d no longer equals the model", k + 1, j); ledger_drop_all(); return; }
             r->validated++; r->cls[0]++;
